@@ -291,6 +291,40 @@ func genC07(g *Rng, tier string, emit func(Op)) {
 			emit(col.relOp("sequential"))
 		}
 	}
+	// the randomised signature element A' = A*S^r of two proofs of one credential differs by S^(r1-r2):
+	// with r drawn from its full range that is no small power of S
+	{
+		pk := kp.pk
+		cred := issueCred(kp, randSecret(g), []*big.Int{g.bits(60), g.bits(60)})
+		var as []*big.Int
+		for i := 0; i < 6; i++ {
+			p, err := cred.CreateDisclosureProof([]int{1}, nil, false, g.bits(256), g.bits(80))
+			if err != nil {
+				panic(err)
+			}
+			as = append(as, p.A)
+		}
+		small := map[string]int{}
+		acc := bi(1)
+		for k := 0; k <= 5000; k++ {
+			small[acc.String()] = k
+			acc = new(big.Int).Mod(new(big.Int).Mul(acc, pk.S), pk.N)
+		}
+		res := "unlinkable"
+		for i := range as {
+			for j := range as {
+				if i == j {
+					continue
+				}
+				ratio := new(big.Int).Mul(as[i], new(big.Int).ModInverse(as[j], pk.N))
+				ratio.Mod(ratio, pk.N)
+				if k, ok := small[ratio.String()]; ok {
+					res = fmt.Sprintf("proofs %d and %d: A'_i / A'_j = S^%d", i, j, k)
+				}
+			}
+		}
+		emit(Op{"op": "recorded", "class": "randomised-signature-small-power-of-S", "label": "unlinkable", "nomodel": true, "fkey": "C07/randomised-signature-range", "result": res})
+	}
 	// a hidden attribute whose value is 0 (an absent optional attribute) is blinded like any other:
 	// its response is its randomiser, which is long, and never the same twice
 	{
